@@ -111,8 +111,11 @@ func (cs *contentServer) makeSig(content []byte, identifier, version string) ([]
 	return filesig.MakeSigFileSection(letter)
 }
 
-func (cs *contentServer) url(nonce, behaviour string, seed uint64, size int) string {
-	return fmt.Sprintf("%s/%s/%s/%d/%d", cs.srv.URL, nonce, behaviour, seed, size)
+func (cs *contentServer) url(nonce, behaviour string, seed uint64, size int, id uint64) string {
+	if id == 0 {
+		id = 2
+	}
+	return fmt.Sprintf("%s/%s/%s/%d/%d.%d", cs.srv.URL, nonce, behaviour, seed, size, id)
 }
 
 func (cs *contentServer) handle(rw http.ResponseWriter, rq *http.Request) {
@@ -123,9 +126,10 @@ func (cs *contentServer) handle(rw http.ResponseWriter, rq *http.Request) {
 	}
 	nonce, behaviour := parts[0], parts[1]
 	seed, _ := strconv.ParseUint(parts[2], 10, 64)
-	size, _ := strconv.Atoi(parts[3])
+	size, id := 0, uint64(2)
+	_, _ = fmt.Sscanf(parts[3], "%d.%d", &size, &id)
 	rest := parts[4]
-	content := makeContent(seed, 2, size)
+	content := makeContent(seed, id, size)
 	cs.mu.Lock()
 	cs.Requests++
 	cs.mu.Unlock()
